@@ -180,7 +180,7 @@ func TestC15(t *testing.T) {
 	runProp(t, &propSpec{
 		id: "C15",
 		profile: &Profile{
-			Name: "C15", MinSteps: 6, MaxSteps: 36, MaxClient: 3, Odd: true, Teardown: true, SlowCB: true, Coincide: true, Streams: true,
+			Name: "C15", MinSteps: 6, MaxSteps: 36, MaxClient: 3, Odd: true, Teardown: true, SlowCB: true, Coincide: true, Streams: true, Fragments: []string{"perm"},
 			Weights: map[string]int{"Allocate": 12, "Refresh": 10, "CreatePermission": 14, "ChannelBind": 14, "Send": 3, "ChannelData": 2, "PeerData": 4, "Sleep": 22, "RelayError": 5, "CloseServer": 3, "CloseControl": 4, "CloseListenerSocket": 2},
 		},
 		nontrivial: func(st *Stats, _ *Script) bool {
